@@ -160,7 +160,51 @@ func (l *commitLog) init() error {
 	return nil
 }
 
+// recoverInterruptedRewrites deals with what a crash in the middle of a clean
+// or a truncation leaves behind. A segment is rewritten into <base>.log.cleaned
+// (or .truncated) and its index, which then replace the originals by two
+// renames, the log first (see segment.Replace). If the rewritten log is still
+// there the original segment is intact and the rewrite is discarded. If only
+// the rewritten index is there, the log has been replaced already and the old
+// index no longer matches it: the replacement is completed.
+func recoverInterruptedRewrites(path string) error {
+	files, err := os.ReadDir(path)
+	if err != nil {
+		return errors.Wrap(err, "read dir failed")
+	}
+	for _, suffix := range []string{cleanedSuffix, truncatedSuffix} {
+		for _, file := range files {
+			if !strings.HasSuffix(file.Name(), logFileSuffix+suffix) {
+				continue
+			}
+			base := strings.TrimSuffix(file.Name(), logFileSuffix+suffix)
+			for _, name := range []string{file.Name(), base + indexFileSuffix + suffix} {
+				if err := os.Remove(filepath.Join(path, name)); err != nil && !os.IsNotExist(err) {
+					return errors.Wrap(err, "failed to remove leftover segment file")
+				}
+			}
+		}
+		for _, file := range files {
+			if !strings.HasSuffix(file.Name(), indexFileSuffix+suffix) {
+				continue
+			}
+			base := strings.TrimSuffix(file.Name(), indexFileSuffix+suffix)
+			rewritten := filepath.Join(path, file.Name())
+			if !exists(rewritten) {
+				continue // removed above together with its log
+			}
+			if err := os.Rename(rewritten, filepath.Join(path, base+indexFileSuffix)); err != nil {
+				return errors.Wrap(err, "failed to complete segment replacement")
+			}
+		}
+	}
+	return nil
+}
+
 func (l *commitLog) open() error {
+	if err := recoverInterruptedRewrites(l.Path); err != nil {
+		return err
+	}
 	files, err := os.ReadDir(l.Path)
 	if err != nil {
 		return errors.Wrap(err, "read dir failed")
